@@ -20,8 +20,10 @@ import (
 	"crypto/sha512"
 	"encoding/hex"
 	"fmt"
+	"net"
 	"sort"
 	"strings"
+	"sync"
 	"time"
 
 	"github.com/patrickmn/go-cache"
@@ -35,6 +37,7 @@ import (
 	"github.com/scionproto/scion/pkg/scrypto/signed"
 	seg "github.com/scionproto/scion/pkg/segment"
 	"github.com/scionproto/scion/private/segment/segverifier"
+	infra "github.com/scionproto/scion/private/segment/verifier"
 	"github.com/scionproto/scion/private/trust"
 	"github.com/scionproto/scion/private/trust/compat"
 	"verifharness/internal/pki24"
@@ -286,7 +289,10 @@ func main() {
 		"wrong / empty subject key id, TRC base / serial), wire mutations (segment info bytes and fields, " +
 		"header-and-body bytes, signature bytes, swapped signatures), structural mutations (entry removed / inserted / " +
 		"swapped / duplicated, trailing entries dropped, struct fields Local / ExpTime / Timestamp changed) and " +
-		"cache-priming sequences (same signer, different validity); non-trivial = a verification reached the " +
+		"cache-priming sequences (same signer, different validity; same timestamp, different ExpTime); verification " +
+		"units through segverifier.StartVerification with a context that expires while the verifier is busy " +
+		"(valid, forged and uncovered segments; reported verified => every entry verified); " +
+		"non-trivial = a verification reached the " +
 		"certificate lookup of some entry"
 	rng := vgen.NewRand(run.Seed)
 	ctx := context.Background()
@@ -837,9 +843,153 @@ func main() {
 		extra["ts_minus_now_s"] = int(ts.Sub(now).Seconds())
 		emit("seq", class, cached, steps, shortKey(ci, class, describe(specs), cached, len(steps)), extra)
 	}
-	// deterministic order of distribution keys is handled by vgen
+	// ------------------------------------------------------------ verification units under an expiring context
+	// segverifier.StartVerification / Unit.Verify (what the segment handler of the control
+	// service uses) with a verifier that is still busy when the request context expires:
+	//   mode 1 "stall-on-failure": a failing entry verification blocks until the context is
+	//          done (a chain fetch from a remote that never answers) and then returns the error;
+	//   mode 2 "slow": every entry verification finishes only after the context is done and
+	//          then returns its real result.
+	// Observed: the UnitResult has no segment error (the segment would be stored as verified).
+	type unitJob struct {
+		want   bool
+		ps     *seg.PathSegment
+		mode   int
+		class  string
+		desc   string
+		unitOK bool
+	}
+	nunits := run.Count(36, 400)
+	jobs := make([]*unitJob, nunits)
+	baseID := ncases
+	for ui := 0; ui < nunits; ui++ {
+		r := rng.Fork(uint64(500000 + ui))
+		j := &unitJob{want: run.WantID(baseID + ui), mode: 1 + ui%2}
+		jobs[ui] = j
+		n := vgen.Pick(r, 1, 2, 3, 4, 6)
+		var specs []*entrySpec
+		for _, a := range pathOf(r, n) {
+			specs = append(specs, normal(a, genExp(r)))
+		}
+		j.class = vgen.Pick(r, "valid", "forged-wrongkey", "forged-wrongkey", "forged-unknown-skid", "forged-sig-byte",
+			"forged-info", "uncovered")
+		if !j.want {
+			continue
+		}
+		k := r.Intn(n)
+		ts := genTS(r)
+		switch j.class {
+		case "forged-wrongkey":
+			makeAbnormal(r, specs, k, "wrongkey")
+		case "forged-unknown-skid":
+			makeAbnormal(r, specs, k, "wrongskid")
+		case "uncovered":
+			a := w.ases[vgen.Pick(r, 0, 3, 6, 9)]
+			sp := normal(a, 255)
+			withCert(sp, "narrow")
+			specs[k] = sp
+		}
+		ps, err := w.build(r, ts, specs)
+		if err != nil {
+			panic(err)
+		}
+		if j.class == "forged-sig-byte" || j.class == "forged-info" {
+			pb := clonePB(seg.PathSegmentToPB(ps))
+			if j.class == "forged-sig-byte" {
+				sg := pb.AsEntries[k].Signed.Signature
+				sg[r.Intn(len(sg))] ^= byte(1 << r.Intn(8))
+			} else {
+				var inf cppb.SegmentInformation
+				_ = proto.Unmarshal(pb.SegmentInfo, &inf)
+				inf.SegmentId ^= uint32(1 << r.Intn(16))
+				pb.SegmentInfo, _ = proto.Marshal(&inf)
+			}
+			if mp, err := seg.SegmentFromPB(pb); err == nil {
+				ps = mp
+			}
+		}
+		j.ps = ps
+		j.desc = describe(specs)
+	}
+	{
+		var wg sync.WaitGroup
+		sem := make(chan struct{}, 12)
+		for _, j := range jobs {
+			if !j.want {
+				continue
+			}
+			wg.Add(1)
+			sem <- struct{}{}
+			go func(j *unitJob) {
+				defer wg.Done()
+				defer func() { <-sem }()
+				uctx, cancel := context.WithTimeout(ctx, 120*time.Millisecond)
+				defer cancel()
+				v := stallVerifier{inner: newVerifier(false), mode: j.mode, stall: 40 * time.Millisecond}
+				resC, cnt := segverifier.StartVerification(uctx, v, nil, []*seg.Meta{{Segment: j.ps, Type: seg.TypeDown}})
+				if cnt != 1 {
+					panic("unexpected unit count")
+				}
+				select {
+				case res := <-resC:
+					j.unitOK = res.SegError() == nil && len(res.Errors) == 0
+				case <-time.After(10 * time.Second):
+					panic("no unit result")
+				}
+			}(j)
+		}
+		wg.Wait()
+	}
+	for ui, j := range jobs {
+		if !j.want {
+			run.Skip()
+			continue
+		}
+		n := newNames()
+		// the step itself (direct, uncached VerifySegment with a live context) and its crypto table
+		t, direct, acc, reached := w.stepTerm(n, newVerifier(false), step{j.ps, true, "unit " + j.class})
+		term := "(" + strings.Join(n.lets, " ") + " SegVerify.CUnit pki0 trcs0 " + fmt.Sprint(j.mode) + " (" + t + ") " +
+			vgen.B(j.unitOK) + ")"
+		run.Tally("class:unit:" + j.class)
+		run.Tally(fmt.Sprintf("unit:mode%d:reported-verified:%v", j.mode, j.unitOK))
+		run.Add("unit", term, shortKey("unit", ui, j.class, j.mode, j.desc), reached,
+			map[string]any{"class": "unit:" + j.class, "mode": j.mode, "segment": j.desc, "direct_verdict": direct,
+				"unit_reported_verified": j.unitOK, "crypto_accepts": acc})
+	}
 	_ = sort.Strings
 	run.Finish()
+}
+
+// stallVerifier wraps the real verifier so that it is still busy when the request
+// context expires (see the unit cases in main).
+type stallVerifier struct {
+	inner compat.Verifier
+	mode  int
+	stall time.Duration
+}
+
+func (v stallVerifier) WithServer(a net.Addr) infra.Verifier {
+	v.inner = v.inner.WithServer(a).(compat.Verifier)
+	return v
+}
+func (v stallVerifier) WithIA(ia addr.IA) infra.Verifier {
+	v.inner = v.inner.WithIA(ia).(compat.Verifier)
+	return v
+}
+func (v stallVerifier) WithValidity(val cppki.Validity) infra.Verifier {
+	v.inner = v.inner.WithValidity(val).(compat.Verifier)
+	return v
+}
+
+func (v stallVerifier) Verify(ctx context.Context, msg *cryptopb.SignedMessage,
+	ad ...[]byte) (*signed.Message, error) {
+	// the real verification, with a context that does not expire
+	m, err := v.inner.Verify(context.Background(), msg, ad...)
+	if v.mode == 2 || err != nil {
+		<-ctx.Done()
+		time.Sleep(v.stall)
+	}
+	return m, err
 }
 
 func indexOf(as []*asRec, a *asRec) int {
